@@ -27,6 +27,14 @@ append loops     `L = []` directly followed by `for x in IT: L.append(E)` -- opt
                  `if c: L.append(E)` or `if c: continue` before the append -- is the comprehension
                  `L = [E for x in IT if ...]`, provided the loop variables are not read after the loop and
                  the body does nothing else.
+
+dict dispatch    `D = {"a": fa, "b": lambda: E}` (a local bound once to a literal with constant keys, never
+                 mutated) used as `return D[k](ARGS)` / `T = D[k](ARGS)` / `f = D[k]` ... `return f(ARGS)`
+                 is the chain `if k == "a": return fa(ARGS) elif k == "b": return E else: raise KeyError(k)`.
+
+lookup with default   `vars(x)` is `x.__dict__`; `if k in m: return m[k]` followed by `return d` (or the
+                 else-branch / negated forms, or `m[k] if k in m else d`) is `m.get(k, d)` when d is a
+                 plain name / attribute / constant (evaluating it early changes nothing).
 """
 
 from __future__ import annotations
@@ -167,12 +175,34 @@ def unroll_table_loops(tree: ast.Module) -> int:
         return isinstance(e, (ast.Tuple, ast.List)) and len(e.elts) == n and all(isinstance(x, (ast.Constant, ast.Name, ast.Attribute)) for x in e.elts)
 
     count = 0
+    # a table bound to a local first: `rows = (("a", fa), ("b", fb))` ... `for k, f in rows:`
+    named_tables = {}
+    for fn in [n for n in ast.walk(tree) if isinstance(n, (ast.FunctionDef, ast.AsyncFunctionDef))]:
+        stores = {}
+        for n in ast.walk(fn):
+            if isinstance(n, ast.Name) and isinstance(n.ctx, (ast.Store, ast.Del)):
+                stores[n.id] = stores.get(n.id, 0) + 1
+        for st in ast.walk(fn):
+            if isinstance(st, ast.Assign) and len(st.targets) == 1 and isinstance(st.targets[0], ast.Name) and stores.get(st.targets[0].id) == 1 and isinstance(st.value, (ast.Tuple, ast.List)) and st.value.elts and all(isinstance(e, (ast.Tuple, ast.List)) for e in st.value.elts):
+                nm = st.targets[0].id
+                mutated = any(isinstance(c, ast.Call) and isinstance(c.func, ast.Attribute) and isinstance(c.func.value, ast.Name) and c.func.value.id == nm for c in ast.walk(fn))
+                if not mutated:
+                    named_tables[(id(fn), nm)] = st.value
+    owner = {}
+    for fn in [n for n in ast.walk(tree) if isinstance(n, (ast.FunctionDef, ast.AsyncFunctionDef))]:
+        for n in ast.walk(fn):
+            if isinstance(n, ast.For):
+                owner[id(n)] = fn  # ast.walk lists enclosing functions first: the innermost one wins
 
     class U(ast.NodeTransformer):
         def visit_For(self, node):
             nonlocal count
             self.generic_visit(node)
             it, tg = node.iter, node.target
+            if isinstance(it, ast.Name):
+                fn = owner.get(id(node))
+                if fn is not None and (id(fn), it.id) in named_tables:
+                    it = named_tables[(id(fn), it.id)]
             if (
                 isinstance(it, (ast.Tuple, ast.List))
                 and 1 <= len(it.elts) <= 8
@@ -340,7 +370,22 @@ def append_loop_to_comprehension(tree: ast.Module) -> int:
                 if m is not None and L not in tn and not any(isinstance(n, ast.Name) and n.id == L for n in ast.walk(nxt.iter)) and not any(isinstance(n, ast.Name) and n.id == L for n in ast.walk(m[0])) and not any(isinstance(n, ast.Name) and n.id == L for c in m[1] for n in ast.walk(c)):
                     inside = {id(n) for n in ast.walk(nxt)}
                     later_reads = [n for n in ast.walk(fn_node) if isinstance(n, ast.Name) and n.id in tn and isinstance(n.ctx, ast.Load) and id(n) not in inside and getattr(n, "lineno", 0) > nxt.lineno]
-                    # a later read is harmless when the name is re-bound before it; keep it simple: require none
+                    # a later read is harmless when it sits in a later loop / comprehension that binds the name itself
+                    rebinders = [x for x in ast.walk(fn_node) if isinstance(x, (ast.For, ast.comprehension)) and x is not nxt and getattr(x, "lineno", getattr(getattr(x, "target", None), "lineno", 0)) > nxt.lineno]
+                    covered = set()
+                    for rb in rebinders:
+                        bound = target_names(rb.target)
+                        scope = rb if isinstance(rb, ast.For) else None
+                        if scope is None:
+                            # comprehension: reads of its own targets anywhere in the enclosing comprehension expression
+                            for comp in ast.walk(fn_node):
+                                if isinstance(comp, (ast.ListComp, ast.SetComp, ast.GeneratorExp, ast.DictComp)) and any(g is rb for g in comp.generators):
+                                    scope = comp
+                        if scope is not None:
+                            for x in ast.walk(scope):
+                                if isinstance(x, ast.Name) and x.id in bound:
+                                    covered.add(id(x))
+                    later_reads = [n for n in later_reads if id(n) not in covered]
                     if not later_reads:
                         comp = ast.ListComp(elt=copy.deepcopy(m[0]), generators=[ast.comprehension(target=copy.deepcopy(nxt.target), iter=copy.deepcopy(nxt.iter), ifs=[simplify_not(c) for c in m[1]], is_async=0)])
                         new = ast.Assign(targets=[ast.Name(id=L, ctx=ast.Store())], value=comp, type_comment=None)
@@ -358,6 +403,212 @@ def append_loop_to_comprehension(tree: ast.Module) -> int:
 
     for fn in [n for n in ast.walk(tree) if isinstance(n, (ast.FunctionDef, ast.AsyncFunctionDef))]:
         fn.body = rewrite_block(fn.body, fn)
+    if count:
+        ast.fix_missing_locations(tree)
+    return count
+
+
+def expand_dict_dispatch(tree: ast.Module) -> int:
+    import copy
+
+    count = 0
+
+    def process(fn):
+        nonlocal count
+        stores = {}
+        for n in ast.walk(fn):
+            if isinstance(n, ast.Name) and isinstance(n.ctx, (ast.Store, ast.Del)):
+                stores[n.id] = stores.get(n.id, 0) + 1
+        tables = {}
+        for st in ast.walk(fn):
+            if isinstance(st, ast.Assign) and len(st.targets) == 1 and isinstance(st.targets[0], ast.Name) and stores.get(st.targets[0].id) == 1 and isinstance(st.value, ast.Dict) and st.value.keys and all(isinstance(k, ast.Constant) and isinstance(k.value, (str, int)) for k in st.value.keys) and all(isinstance(v, (ast.Name, ast.Attribute, ast.Lambda)) for v in st.value.values):
+                nm = st.targets[0].id
+                mutated = any(isinstance(c, ast.Call) and isinstance(c.func, ast.Attribute) and isinstance(c.func.value, ast.Name) and c.func.value.id == nm and c.func.attr not in ("get", "keys", "items", "values") for c in ast.walk(fn))
+                stored_into = any(isinstance(x, ast.Subscript) and isinstance(x.ctx, (ast.Store, ast.Del)) and isinstance(x.value, ast.Name) and x.value.id == nm for x in ast.walk(fn))
+                if not mutated and not stored_into:
+                    tables[nm] = st.value
+        if not tables:
+            return
+        # f = D[k] handles: single definition, used only as a callee
+        handles = {}
+        for st in ast.walk(fn):
+            if isinstance(st, ast.Assign) and len(st.targets) == 1 and isinstance(st.targets[0], ast.Name) and stores.get(st.targets[0].id) == 1 and isinstance(st.value, ast.Subscript) and isinstance(st.value.value, ast.Name) and st.value.value.id in tables:
+                h = st.targets[0].id
+                loads = [n for n in ast.walk(fn) if isinstance(n, ast.Name) and n.id == h and isinstance(n.ctx, ast.Load)]
+                callee_uses = [c for c in ast.walk(fn) if isinstance(c, ast.Call) and isinstance(c.func, ast.Name) and c.func.id == h]
+                if len(loads) == 1 and len(callee_uses) == 1:
+                    handles[h] = (st, st.value)
+
+        def chain(dname, key, call, make):
+            d = tables[dname]
+            branches = []
+            for k, v in zip(d.keys, d.values):
+                if isinstance(v, ast.Lambda):
+                    a = v.args
+                    if a.args or a.kwonlyargs or a.vararg or a.kwarg or a.posonlyargs or call.args or call.keywords:
+                        return None
+                    val = copy.deepcopy(v.body)
+                else:
+                    val = ast.Call(func=copy.deepcopy(v), args=copy.deepcopy(call.args), keywords=copy.deepcopy(call.keywords))
+                test = ast.Compare(left=copy.deepcopy(key), ops=[ast.Eq()], comparators=[copy.deepcopy(k)])
+                branches.append((test, make(val)))
+            tail = [ast.Raise(exc=ast.Call(func=ast.Name(id="KeyError", ctx=ast.Load()), args=[copy.deepcopy(key)], keywords=[]), cause=None)]
+            node = None
+            for test, body in reversed(branches):
+                node = ast.If(test=test, body=[body], orelse=[node] if node is not None else tail)
+            return node
+
+        def rewrite_block(block):
+            nonlocal count
+            out = []
+            for st in block:
+                for fld in ("body", "orelse", "finalbody"):
+                    sub = getattr(st, fld, None)
+                    if isinstance(sub, list) and sub and isinstance(sub[0], ast.stmt) and not isinstance(st, (ast.FunctionDef, ast.AsyncFunctionDef, ast.ClassDef)):
+                        setattr(st, fld, rewrite_block(sub))
+                for h in getattr(st, "handlers", []) or []:
+                    h.body = rewrite_block(h.body)
+                # drop `f = D[k]` of a handle that is expanded at its call
+                if isinstance(st, ast.Assign) and len(st.targets) == 1 and isinstance(st.targets[0], ast.Name) and st.targets[0].id in handles and handles[st.targets[0].id][0] is st:
+                    continue
+                call = make = None
+                if isinstance(st, ast.Return) and isinstance(st.value, ast.Call):
+                    call, make = st.value, (lambda v, st=st: ast.copy_location(ast.Return(value=v), st))
+                elif isinstance(st, ast.Assign) and len(st.targets) == 1 and isinstance(st.value, ast.Call):
+                    call, make = st.value, (lambda v, st=st: ast.copy_location(ast.Assign(targets=[copy.deepcopy(st.targets[0])], value=v, type_comment=None), st))
+                elif isinstance(st, ast.Expr) and isinstance(st.value, ast.Call):
+                    call, make = st.value, (lambda v, st=st: ast.copy_location(ast.Expr(value=v), st))
+                new = None
+                if call is not None:
+                    f_ = call.func
+                    if isinstance(f_, ast.Subscript) and isinstance(f_.value, ast.Name) and f_.value.id in tables:
+                        new = chain(f_.value.id, f_.slice, call, make)
+                    elif isinstance(f_, ast.Name) and f_.id in handles:
+                        sub = handles[f_.id][1]
+                        new = chain(sub.value.id, sub.slice, call, make)
+                if new is not None:
+                    ast.copy_location(new, st)
+                    ast.fix_missing_locations(new)
+                    new._from_dict_dispatch = True
+                    out.append(new)
+                    count += 1
+                else:
+                    if isinstance(st, ast.Assign) and len(st.targets) == 1 and isinstance(st.targets[0], ast.Name) and st.targets[0].id in handles:
+                        pass
+                    out.append(st)
+            return out
+
+        before = count
+        new_body = rewrite_block(fn.body)
+        # every handle must have been expanded, otherwise keep the function as it was
+        fn.body = new_body
+        still = [h for h in handles if any(isinstance(c, ast.Call) and isinstance(c.func, ast.Name) and c.func.id == h for c in ast.walk(fn))]
+        if still:
+            # put the dropped definitions back in front (rare: the call sat in an expression we do not rewrite)
+            for h in still:
+                st = handles[h][0]
+                fn.body.insert(0, st)
+
+    for fn in [n for n in ast.walk(tree) if isinstance(n, (ast.FunctionDef, ast.AsyncFunctionDef))]:
+        process(fn)
+    if count:
+        ast.fix_missing_locations(tree)
+    return count
+
+
+def fold_dict_lookup(tree: ast.Module) -> int:
+    import copy
+
+    count = 0
+
+    def plain(e):
+        if isinstance(e, (ast.Name, ast.Constant)):
+            return True
+        return isinstance(e, ast.Attribute) and plain(e.value)
+
+    def same(a, b):
+        return ast.dump(a) == ast.dump(b)
+
+    def membership(t):
+        """(k, m, positive) for `k in m` / `k not in m` / `not (k in m)`"""
+        neg = False
+        while isinstance(t, ast.UnaryOp) and isinstance(t.op, ast.Not):
+            t, neg = t.operand, not neg
+        if isinstance(t, ast.Compare) and len(t.ops) == 1 and isinstance(t.ops[0], (ast.In, ast.NotIn)):
+            pos = isinstance(t.ops[0], ast.In) != neg
+            return t.left, t.comparators[0], pos
+        return None
+
+    def lookup_of(e, k, m):
+        return isinstance(e, ast.Subscript) and same(e.value, m) and same(e.slice, k)
+
+    def get_call(k, m, d, at):
+        c = ast.Call(func=ast.Attribute(value=copy.deepcopy(m), attr="get", ctx=ast.Load()), args=[copy.deepcopy(k), copy.deepcopy(d)], keywords=[])
+        return ast.copy_location(c, at)
+
+    class V(ast.NodeTransformer):
+        def visit_Call(self, n):
+            nonlocal count
+            self.generic_visit(n)
+            if isinstance(n.func, ast.Name) and n.func.id == "vars" and len(n.args) == 1 and not n.keywords:
+                count += 1
+                return ast.copy_location(ast.Attribute(value=n.args[0], attr="__dict__", ctx=ast.Load()), n)
+            return n
+
+        def visit_IfExp(self, n):
+            nonlocal count
+            self.generic_visit(n)
+            mm = membership(n.test)
+            if mm is not None:
+                k, m, pos = mm
+                a, b = (n.body, n.orelse) if pos else (n.orelse, n.body)
+                if lookup_of(a, k, m) and plain(b) and plain(m):
+                    count += 1
+                    return get_call(k, m, b, n)
+            return n
+
+    V().visit(tree)
+
+    def rewrite_block(block):
+        nonlocal count
+        out = []
+        i = 0
+        while i < len(block):
+            st = block[i]
+            for fld in ("body", "orelse", "finalbody"):
+                sub = getattr(st, fld, None)
+                if isinstance(sub, list) and sub and isinstance(sub[0], ast.stmt):
+                    setattr(st, fld, rewrite_block(sub))
+            for h in getattr(st, "handlers", []) or []:
+                h.body = rewrite_block(h.body)
+            new = None
+            used = 1
+            if isinstance(st, ast.If) and len(st.body) == 1 and isinstance(st.body[0], ast.Return) and st.body[0].value is not None:
+                mm = membership(st.test)
+                nxt = block[i + 1] if i + 1 < len(block) else None
+                other = None
+                if len(st.orelse) == 1 and isinstance(st.orelse[0], ast.Return) and st.orelse[0].value is not None:
+                    other = st.orelse[0].value
+                elif not st.orelse and isinstance(nxt, ast.Return) and nxt.value is not None:
+                    other = nxt.value
+                    used = 2
+                if mm is not None and other is not None:
+                    k, m, pos = mm
+                    hit, miss = (st.body[0].value, other) if pos else (other, st.body[0].value)
+                    if lookup_of(hit, k, m) and plain(miss) and plain(m):
+                        new = ast.copy_location(ast.Return(value=get_call(k, m, miss, st)), st)
+            if new is not None:
+                ast.fix_missing_locations(new)
+                out.append(new)
+                count += 1
+                i += used
+            else:
+                out.append(st)
+                i += 1
+        return out
+
+    for fn in [n for n in ast.walk(tree) if isinstance(n, (ast.FunctionDef, ast.AsyncFunctionDef))]:
+        fn.body = rewrite_block(fn.body)
     if count:
         ast.fix_missing_locations(tree)
     return count
